@@ -3,18 +3,18 @@ module verif/harness
 go 1.24.3
 
 require (
-	github.com/rs/xid v1.6.0 // indirect
 	github.com/blevesearch/bleve/v2 v2.5.1
 	github.com/cespare/xxhash v1.1.0
 	github.com/google/uuid v1.6.0
+	github.com/rs/xid v1.6.0 // indirect
 	github.com/rs/zerolog v1.34.0
 	github.com/semafind/semadb v0.0.0
 	github.com/vmihailenco/msgpack/v5 v5.4.1
 )
 
+require github.com/RoaringBitmap/roaring v1.9.4
+
 require (
-	github.com/rs/xid v1.6.0 // indirect
-	github.com/RoaringBitmap/roaring v1.9.4 // indirect
 	github.com/beorn7/perks v1.0.1 // indirect
 	github.com/bits-and-blooms/bitset v1.22.0 // indirect
 	github.com/blevesearch/bleve_index_api v1.2.8 // indirect
